@@ -126,7 +126,7 @@ pub fn run_k02(tier: &str, seed: u64, out: &str) {
     cratecheck::cleanup(&tag);
     rep.evaluations = n as u64;
     rep.distinct_nontrivial = *rep.histogram.get("crates_checked").unwrap_or(&0);
-    rep.rule = format!("{n} generated crates (bundled, corpus and structured random documents in D; service names from several spellings) type-checked with `cargo check --lib` against the stand-in dependencies and the real serde, serde_json, chrono; every rustc error is a failure");
+    rep.rule = format!("{n} generated crates (bundled, corpus and structured random documents in D; service names from several spellings) type-checked with `cargo check --lib` against the stand-in dependencies and the real serde, serde_json, chrono; every rustc error is a failure. Non-trivial = crates that were generated and judged by rustc");
     rep.write(out);
 }
 
@@ -284,6 +284,7 @@ pub fn run_k16(tier: &str, seed: u64, out: &str) {
     let tag = format!("k16-{tier}");
     let n = cases.len();
     let mut evals = 0u64;
+    let mut nontrivial = 0u64;
     if let Some(b) = build_all(&tag, cases, &mut rep, true, &|_, _| vec![]) {
         let mut jobs: Vec<(usize, String)> = vec![];
         for (i, c) in b.cases.iter().enumerate() {
@@ -317,17 +318,22 @@ pub fn run_k16(tier: &str, seed: u64, out: &str) {
             let env: Vec<(String, String)> = cratecheck::env_vars_of(&lib).into_iter().map(|k| { let v = if k.ends_with("_ENV") { "production".to_string() } else if k.ends_with("BASE_URL") { "https://base.example".to_string() } else { format!("env-{k}") }; (k, v) }).collect();
             cratecheck::run_example(&b.tag, &format!("c{i}"), e, &env, "", 20)
         });
+        let mut distinct = BTreeSet::new();
         for ((i, e), run) in jobs.iter().zip(runs.iter()) {
             evals += 1;
             let c = &b.cases[*i];
             let em = b.emitted[*i].as_ref().unwrap();
+            // non-trivial: a distinct example program (by its source text) whose operation has at least one input
+            let src = em.tree.get(&format!("examples/{e}.rs")).cloned().unwrap_or_default();
+            let has_inputs = em.hir.operations.iter().find(|o| mir_rust::sanitize_filename(&o.file_name()) == *e).map(|o| !o.parameters.is_empty()).unwrap_or(false);
+            if has_inputs && distinct.insert(fnv(&String::from_utf8_lossy(&src))) { nontrivial += 1; }
             check_example_run(&mut rep, c, em, e, run);
         }
     }
     cratecheck::cleanup(&tag);
     rep.evaluations = evals;
-    rep.distinct_nontrivial = evals;
-    rep.rule = format!("{n} generated crates with examples enabled, built with `cargo build --lib --examples` against the stand-ins; every example of a crate whose library compiles must compile, and when run against the recording client must produce exactly one request, to its operation's method and path, carrying every declared input of the operation");
+    rep.distinct_nontrivial = nontrivial;
+    rep.rule = format!("{n} generated crates with examples enabled, built with `cargo build --lib --examples` against the stand-ins; every example of a crate whose library compiles must compile, and when run against the recording client must produce exactly one request, to its operation's method and path, carrying every declared input of the operation. Non-trivial = distinct example programs of operations that have inputs");
     rep.write(out);
 }
 
@@ -584,6 +590,7 @@ pub fn run_k04(tier: &str, seed: u64, out: &str) {
     let n = cases.len();
     let mut evals = 0u64;
     let mut nontrivial = 0u64;
+    let mut distinct_inst = BTreeSet::new();
     // instances per case, from the document's component schemas that are retained as models
     let insts_of = |c: &EmitCase, em: &Emitted| -> Vec<Inst> {
         let mut v = vec![];
@@ -640,9 +647,11 @@ pub fn run_k04(tier: &str, seed: u64, out: &str) {
             let lines: Vec<&str> = run.stdout.lines().collect();
             if lines.len() != insts.len() { rep.oracle_fail("probeRunFailed", vec![], &case_text(c), &format!("{} lines for {} instances ({}): {}", lines.len(), insts.len(), run.status, run.stderr.chars().take(300).collect::<String>())); continue; }
             let mres: Vec<crate::sexp::Sexp> = crate::sexp::parse(m).and_then(|s| s.as_list().map(|l| l[1..].to_vec())).unwrap_or_default();
-            nontrivial += 1;
             for (k, (inst, line)) in insts.iter().zip(lines.iter()).enumerate() {
                 evals += 1;
+                // non-trivial: a distinct (type, instance) pair whose instance is a non-empty object or array
+                let nonempty = match &inst.json { Value::Object(o) => !o.is_empty(), Value::Array(a) => !a.is_empty(), _ => false };
+                if nonempty && distinct_inst.insert(fnv(&format!("{}{}", inst.ty_key, inst.json))) { nontrivial += 1; }
                 rep.bump(&format!("instance:{}", if inst.expect_ok { inst.kind.as_str() } else { "without-required" }));
                 let what = format!("{} {} {}", inst.ty_key, inst.kind, serde_json::to_string(&inst.json).unwrap());
                 let real: Result<Value, String> = match line.strip_prefix("ok ") { Some(j) => serde_json::from_str(j).map_err(|e| e.to_string()), None => Err(line.to_string()) };
@@ -674,7 +683,7 @@ pub fn run_k04(tier: &str, seed: u64, out: &str) {
     cratecheck::cleanup(&tag);
     rep.evaluations = evals;
     rep.distinct_nontrivial = nontrivial;
-    rep.rule = format!("{n} generated crates built with a probe program; for every retained component schema, instances synthesised from the OpenAPI schema itself (all properties, required only, nulls for nullable, boundary strings / numbers, and one instance per rejectable required member with that member removed) go through serde_json::from_str / to_string on the compiled model; the result is judged against the instance (equal up to omitted null / empty-array members; removed required member rejected) and compared with the Lean serde semantics on the same instance");
+    rep.rule = format!("{n} generated crates built with a probe program; for every retained component schema, instances synthesised from the OpenAPI schema itself (all properties, required only, nulls for nullable, boundary strings / numbers, and one instance per rejectable required member with that member removed) go through serde_json::from_str / to_string on the compiled model; the result is judged against the instance (equal up to omitted null / empty-array members; removed required member rejected) and compared with the Lean serde semantics on the same instance. Non-trivial = distinct (type, instance) pairs whose instance is a non-empty object or array");
     rep.write(out);
 }
 
@@ -699,6 +708,8 @@ fn run_examples_and_judge(prop: &str, tier: &str, seed: u64, out: &str, rule: &s
     let tag = format!("k{}-{tier}", &prop[1..]);
     let n = cases.len();
     let mut evals = 0u64;
+    let mut nontrivial = 0u64;
+    let mut distinct = BTreeSet::new();
     if let Some(b) = build_all(&tag, cases, &mut rep, true, &|_, _| vec![]) {
         let mut jobs: Vec<(usize, String)> = vec![];
         for (i, _c) in b.cases.iter().enumerate() {
@@ -719,13 +730,16 @@ fn run_examples_and_judge(prop: &str, tier: &str, seed: u64, out: &str, rule: &s
             let reqs: Vec<Value> = run.stdout.lines().filter_map(|l| l.strip_prefix("REQUEST ")).filter_map(|l| serde_json::from_str(l).ok()).collect();
             if reqs.len() != 1 { rep.bump("examples_without_exactly_one_request(C16)"); continue; }
             evals += 1;
+            // non-trivial: a distinct recorded request (method, URL, credential-bearing parts) of a document that declares servers or security
+            let interesting = c.doc.get("servers").and_then(|s| s.as_array()).map(|a| !a.is_empty()).unwrap_or(false) || c.doc["components"].get("securitySchemes").is_some();
+            if interesting && distinct.insert(fnv(&format!("{}{}", serde_json::to_string(&c.doc["servers"]).unwrap_or_default(), reqs[0]))) { nontrivial += 1; }
             judge(&mut rep, c, em, op, &reqs[0], &env_of(em));
         }
     }
     cratecheck::cleanup(&tag);
     rep.evaluations = evals;
-    rep.distinct_nontrivial = evals;
-    rep.rule = format!("{n} generated crates built with their examples against the stand-ins; every example of a crate whose library compiles is run once against the recording client (credentials and server selection supplied through the environment variables the generated lib.rs reads); {rule}");
+    rep.distinct_nontrivial = nontrivial;
+    rep.rule = format!("{n} generated crates built with their examples against the stand-ins; every example of a crate whose library compiles is run once against the recording client (credentials and server selection supplied through the environment variables the generated lib.rs reads); {rule}. Non-trivial = distinct recorded requests of documents that declare servers or security schemes");
     rep.write(out);
 }
 
